@@ -1,5 +1,7 @@
 """C05 - verdicts are invariant under JSON-LD re-serialisation of the same graph."""
 import json
+import os
+import shutil
 import time
 
 import vlib
@@ -19,6 +21,58 @@ def expected_index(case):
         ids[n] = {p: sorted(vs) for p, vs in props.items()}
     types = {c: sorted(ns) for c, ns in case["types"].items()}
     return ids, types
+
+
+def cli_results(stdout):
+    """-> (conforms, sorted (severity, validation, focus, message)) of a report printed by the tool, or None"""
+    try:
+        doc = json.loads(stdout)
+        node = doc[0]["doc:encodes"][0]
+        res = sorted(set((json.dumps(r.get("resultSeverity"), sort_keys=True), json.dumps(r.get("sourceShapeName")),
+                          json.dumps(r.get("focusNode"), sort_keys=True), json.dumps(r.get("resultMessage"))) for r in node.get("result", [])))
+        return bool(node.get("conforms")), res
+    except Exception:
+        return None
+
+
+def cli_twins(V, rows, oby):
+    import subprocess
+    acv = vlib.build_cli()
+    d = os.path.join(vlib.BUILD, "c05cli")
+    shutil.rmtree(d, ignore_errors=True)
+    os.makedirs(d)
+    n = 0
+    for row in rows:
+        o = oby[row["id"]]
+        if not row.get("keepText") or o.get("err") or not o.get("text"):
+            continue
+        text = o["text"]
+        # the same tokens on one line: line breaks outside strings become blanks, then 70 000 blanks before the last token
+        flat = " ".join(text.split("\n")).rstrip()
+        flat = flat[:-1] + " " * 70000 + flat[-1]
+        pf = os.path.join(d, "profile.yaml")
+        open(pf, "w").write(o["profile"])
+        outs = []
+        for name, t in (("rendered", text), ("one-line", flat)):
+            df = os.path.join(d, "%s.%s.jsonld" % (row["id"], name))
+            open(df, "w").write(t)
+            pr = subprocess.run([acv, "validate", pf, df], capture_output=True, timeout=300)
+            outs.append((name, pr.returncode, cli_results(pr.stdout.decode(errors="replace")), pr.stderr[-300:].decode(errors="replace")))
+            os.remove(df)
+        n += 1
+        key = choice_key(row["choice"])
+        (_, rc1, r1, e1), (_, rc2, r2, e2) = outs
+        if r1 is None and r2 is None:
+            continue            # the tool reports nothing for either spelling: nothing for C05 to compare
+        if r1 is None or r2 is None:
+            V.disagree("acv validate gives a verdict for one spelling of the white space and none for the other",
+                       {"case": row, "rendered": [rc1, e1], "one_line": [rc2, e2]})
+        elif r1 != r2:
+            V.disagree("acv validate: results differ between a document and the same tokens on one long line",
+                       {"case": row, "rendered": r1, "one_line": r2})
+        elif r1[0] != o["conforms"]:
+            V.disagree("acv validate and the library disagree on conforms under [%s]" % key, {"case": row, "cli": r1, "library": o["conforms"]})
+    return n
 
 
 def run(tier):
@@ -56,6 +110,11 @@ def run(tier):
         if c["graph"] == "typesTwin" and choice_key(c["choice"]) != "canonical":
             # validated right after the same serialisation of the graph it differs from by one blank inside a string
             rows[-1]["before"] = {"id": "twin", "graph": graphs["types"], "choice": c["choice"], "ws": rows[-1]["ws"]}
+    # every 40th serialisation (and the canonical ones) is observed a second time through the command line tool, as
+    # rendered and rewritten onto ONE line of more than 64 KiB (white space between tokens is not part of the graph)
+    for i, row in enumerate(rows):
+        if (i < len(canon) or i % 40 == 7) and row["choice"].get("ctx") != "prefixRef":   # a referenced context is a
+            row["keepText"] = True                                                          # file the harness rewrites
     obs = vlib.run_harness("reser", rows, "c05", timeout=3000)
     oby = {o["id"]: o for o in obs}
     base = {}
@@ -84,6 +143,7 @@ def run(tier):
             continue
         if key != "canonical":
             ndiff += 1
+    ncli = cli_twins(V, rows, oby)
     rc = V.finish()
     vlib.write_evidence("C05", tier, {
         "states": mc.distinct, "transitions": mc.generated, "traces_validated_against_impl": len(rows),
@@ -95,7 +155,8 @@ def run(tier):
                 "repeated value, plain/@value literal, node split over two objects), RoundTrip and IndexStable checked; %d "
                 "serialisations rendered (+3 white-space variants) and compared: ProcessInput's @ids/@types vs Graph!IdsIndex/"
                 "TypesIndex, conforms and (severity, validation, focus, message) set vs the canonical serialisation; "
-                "non-trivial = non-canonical serialisation" % (total, len(rows)),
+                "%d of them also given to `acv validate` as rendered and as one line of more than 64 KiB (same verdict and "
+                "result set from both, same verdict as the library); non-trivial = non-canonical serialisation" % (total, len(rows), ncli),
         "exhaustive": not quick,
         "samples": [{"graph": r["graph"]["name"], "choice": choice_key(r["choice"])} for r in rows[:: max(1, len(rows) // 6)]][:6],
         "checker_cmd": mc.cmd, "known_findings_hit": sorted(V.known_hits),
